@@ -18,7 +18,7 @@ from simkit.core import RunResult, ddmin_list, short_hash
 
 LEVEL = {"C09": "exploration"}
 TIERS = {"C09": (2500, 150, 60000, 1200)}
-PROBES = {"C09": ["ensemble", "pipeline", "multiplexer", "stacking", "nested_member",
+PROBES = {"C09": ["ensemble", "pipeline", "multiplexer", "stacking", "online_ensemble", "nested_member",
                   "skip_inverse_transform_tag", "update_propagation_checked",
                   "final_forecaster_representation_checked", "holdout_checked",
                   "members_are_clones_checked", "parallel_member_fit", "update_params_false",
@@ -39,7 +39,7 @@ ASSUMPTIONS = {"C09": [
 
 def generate(prop, rng, tier):
     big = tier == "thorough"
-    kind = rng.choice(["ensemble", "ensemble", "ttf", "ttf", "ttf", "mux", "stack", "stack"])
+    kind = rng.choice(["ensemble", "ensemble", "ttf", "ttf", "ttf", "mux", "stack", "stack", "online"])
     slow = rng.random() < 0.15
 
     def member():
@@ -53,6 +53,10 @@ def generate(prop, rng, tier):
         spec = {"kind": "ensemble", "members": [member() for _ in range(rng.randint(2, 4))],
                 "aggfunc": rng.choice(["mean", "median", "min", "max"]),
                 "n_jobs": rng.choice([None, 1, 2, 3, 4])}
+    elif kind == "online":
+        # OnlineEnsembleForecaster without a weighting algorithm: uniform weights
+        spec = {"kind": "online", "members": [C.gen_leaf(rng, allow_slow=False) for _ in range(rng.randint(2, 3))],
+                "aggfunc": "mean", "n_jobs": rng.choice([None, 2])}
     elif kind == "mux":
         ms = [member() for _ in range(rng.randint(2, 3))]
         spec = {"kind": "mux", "members": ms, "selected": rng.randrange(len(ms))}
@@ -76,8 +80,9 @@ def generate(prop, rng, tier):
         while not positive and C._contains_kind(f, ("theta", "ttf")):
             f = member()
         spec = {"kind": "ttf", "transformers": ts, "forecaster": f}
-    fh_fit = C.needs_fh_at_fit(spec) or rng.random() < 0.3
-    n0 = C.min_train_len(spec, max(steps)) + rng.randint(2, 14 if not big else 40)
+    fh_fit = C.needs_fh_at_fit(dict(spec, kind="ensemble") if kind == "online" else spec) or rng.random() < 0.3
+    n0 = C.min_train_len(dict(spec, kind="ensemble") if kind == "online" else spec, max(steps)) + \
+        rng.randint(2, 14 if not big else 40)
     if C._contains_kind(spec, ("hampel",)):
         n0 = max(n0, 14)
     hist = []
@@ -110,6 +115,11 @@ def build_spied(spec):
         return EnsembleForecaster([("m%d" % i, SF(C.build(m), tag="m%d" % i))
                                    for i, m in enumerate(spec["members"])],
                                   n_jobs=spec.get("n_jobs"), aggfunc=spec["aggfunc"])
+    if k == "online":
+        from sktime.forecasting.online_learning import OnlineEnsembleForecaster
+        return OnlineEnsembleForecaster([("m%d" % i, SF(C.build(m), tag="m%d" % i))
+                                         for i, m in enumerate(spec["members"])],
+                                        n_jobs=spec.get("n_jobs"))
     if k == "mux":
         return MultiplexForecaster([("m%d" % i, SF(C.build(m), tag="m%d" % i))
                                     for i, m in enumerate(spec["members"])],
@@ -142,13 +152,15 @@ def execute(prop, scen):
     s = scen["series"]
     y = C.make_series(s["seed"], s["n"], s["origin"], s["index"], sp=s["sp"])
     steps = scen["steps"]
-    res.real.update(C.class_names(spec))
+    res.real.update(C.class_names(dict(spec, kind="ensemble") if kind == "online" else spec))
+    if kind == "online":
+        res.real.add("forecasting.online_learning.OnlineEnsembleForecaster")
     res.stub.update(["SpyForecaster/SpyTransformer around real parts",
                      "joblib backend: simkit SimBackend"])
     if kind == "stack" or C.uses_stub(spec):
         res.stub.add("StubRegressor")
     res.probe({"ensemble": "ensemble", "ttf": "pipeline", "mux": "multiplexer",
-               "stack": "stacking"}[kind])
+               "stack": "stacking", "online": "online_ensemble"}[kind])
     if any(m["kind"] in ("ensemble", "ttf", "mux") for m in spec.get("members", [])) or \
             (kind == "ttf" and spec["forecaster"]["kind"] in ("ensemble", "ttf", "mux")):
         res.probe("nested_member")
@@ -251,7 +263,7 @@ def execute(prop, scen):
             res.ops += 1
             res.states.add(short_hash([kind, updated, h["up"]]))
         # ---- the same object re-configured and fitted again (set_params then fit)
-        if kind in ("mux", "ensemble") and scen.get("refit_other") and not res.violations:
+        if kind in ("mux", "ensemble") and scen.get("refit_other") and not res.violations:  # (not "online")
             y1 = y.iloc[:pos]
             if kind == "mux":
                 other = (spec["selected"] + 1) % len(spec["members"])
@@ -298,7 +310,7 @@ class Reference:
     def __init__(self, spec, steps):
         self.spec = spec
         self.steps = steps
-        self.kind = spec["kind"]
+        self.kind = "ensemble" if spec["kind"] == "online" else spec["kind"]
 
     def fit(self, y, fh):
         k = self.kind
@@ -395,7 +407,7 @@ def _close_info(rec_info, series):
 
 
 def check_fit_dataflow(v, res, spec, log, y0, steps, ref, user_ids):
-    k = spec["kind"]
+    k = "ensemble" if spec["kind"] == "online" else spec["kind"]
     full = peers._series_info(y0)
     if k in ("ensemble", "mux"):
         for i, m in enumerate(spec["members"]):
@@ -469,7 +481,7 @@ def check_fit_dataflow(v, res, spec, log, y0, steps, ref, user_ids):
 
 
 def check_predict(v, res, spec, log, p, q, ref, updated):
-    k = spec["kind"]
+    k = "ensemble" if spec["kind"] == "online" else spec["kind"]
     if not isinstance(p, pd.Series):
         v("not_a_series", "predict returned %s" % type(p).__name__)
         return
@@ -509,7 +521,7 @@ def check_predict(v, res, spec, log, p, q, ref, updated):
 
 
 def check_update_dataflow(v, res, spec, log, batch, up, ref):
-    k = spec["kind"]
+    k = "ensemble" if spec["kind"] == "online" else spec["kind"]
     info = peers._series_info(batch)
     if k in ("ensemble", "stack", "mux"):
         for i in range(len(spec["members"])):
